@@ -375,5 +375,42 @@ def dce_cause(before, after):
     return None
 
 
+def mem2reg_cause(before, after):
+    """`after` = module returned by mem2reg.  -> "switch-break-edge" when mem2reg created a switch-merge ExprPhi
+    (an incoming with PredKey 4) in a function one of whose switch cases contains a `break` nested in an if/block
+    (recorded: diff:stage:mem2reg:hand/switch_case_break_before_store); None otherwise."""
+    try:
+        for fb, fa in zip(_functions(before), _functions(after)):
+            def switch_phis(fn):
+                return sum(1 for e in fn["Expressions"] if e["Kind"]["_t"] == "ExprPhi"
+                           and any(i.get("PredKey") == 4 for i in e["Kind"].get("Incoming") or []))
+            if switch_phis(fa) <= switch_phis(fb):
+                continue
+            found = []
+
+            def nested_break(block, depth):
+                for s in block or []:
+                    k = s["Kind"]
+                    t = k["_t"]
+                    if t == "StmtBreak" and depth > 0:
+                        found.append(1)
+                    elif t == "StmtIf":
+                        nested_break(k.get("Accept"), depth + 1)
+                        nested_break(k.get("Reject"), depth + 1)
+                    elif t == "StmtBlock":
+                        nested_break(k.get("Block"), depth + 1)
+
+            def f(k):
+                if k["_t"] == "StmtSwitch":
+                    for c in k.get("Cases") or []:
+                        nested_break(c.get("Body"), 0)
+            _walk_stmts(fa["Body"], f)
+            if found:
+                return "switch-break-edge"
+    except Exception:
+        return None
+    return None
+
+
 def dump_summary(x):
     return json.dumps(x)[:300]
